@@ -301,6 +301,11 @@ def run(ctx):
     from contracts import c_sim as cs
     ctx.verify(cs.engine(), cs.VERIFY, min_obligations={cs.VERIFY[0].key: 9})
     ctx.verify(cs.dispatch_engine(), cs.VERIFY_DISPATCH, min_obligations={c.key: 8 for c in cs.VERIFY_DISPATCH})
+    ctx.verify(cs.attr_engine(), cs.VERIFY_ATTR, min_obligations={cs.VERIFY_ATTR[0].key: 30})
+    ctx.assumptions.append("export(): the loop `for attr in self.sim.attrs: self.export_attr(attr)` visits the attributes "
+                           "in order (read off the source); with export_attr's contract (one entry appended to exactly "
+                           "one list, the others untouched) the three lists hold one entry per attribute in the "
+                           "original order")
     ctx.run_bounded("sim-inputs", cases(ctx.tier, ctx.seed), check_sim,
                     rule="Sims built procedurally, through add(), and class-defined, alone and in lists of 2-3 sharing "
                          "or not sharing a testbench; 1-6 attributes from all analysis types (sweep/Monte-Carlo nested "
